@@ -28,9 +28,17 @@ THEOREMS = [_NS + t for t in (
     "layR_ranged", "denoteElems_ranged", "countPrintedArgVals_layR", "scanArgVals_layR", "scanLoop_layR",
     "countLoop_layR", "Prov.scanRange", "Prov.skipRange", "scanArgVal_rangeB", "scanArgVal_rangeC",
     "skipNext_rangeL", "deltaStep11", "RangeOK.delta_cell", "ValOK.nomult", "exRanged_ranged",
-    # hypotheses the class needs: the width c - b must be an int32_t (the specification only bounds the number of
-    # steps); model artefact: recursion bound of the checker's look-back at a deeply nested left neighbour
-    "wide_range_counterexample", "deep_neighbour_model_fuel",
+    # ranges directly behind an array / nx[array] (Prov.arr, Prov.repArr: the checker re-skips the array with the
+    # recursion bound lookBackFuel) and ranges INSIDE arrays of any nesting depth: the element loops of scanner and
+    # checker over elements and ranges (ArrR), the array with ranges as a good argument, the wider value class
+    # SVal.rproved (text -> ArrR / LayR, denotation), the sentences built from it
+    "lookBackFuel_ge", "scanElemsR", "skipElemsR", "arg11_arrayR", "SVal.rproved.arg11", "rangedElems.body",
+    "SVal.rproved.denote1", "rangedElems.denote", "layR_rangedA", "cells_rangedA", "rangedFromA_of_proved",
+    "exRangedArr_ranged",
+    # hypothesis the class needs: the width c - b must be an int32_t (the specification only bounds the number of
+    # steps); former model artefact (recursion bound of the checker's look-back at a deeply nested left neighbour),
+    # repaired in the model: the former witness is read as its denotation
+    "wide_range_counterexample", "deep_neighbour_reads",
     # known finding C11-K1: the full statements fail on "077" (scan_denotes) and on "-071 -58 ... -076"
     # (checker_scanner_agree); the proved part lies outside the trigger
     "scan_denotes_counterexample", "checker_scanner_agree_counterexample", "proved_not_K1",
@@ -89,22 +97,30 @@ ASSUMPTIONS = [
     "these cells; and (class Ranged: checker_scanner_agree_ranges_partial, scan_denotes_ranges_partial, "
     "whitespace_comment_invariance_ranges_partial) the first three clauses for sentences of any length in which ranges "
     "b ... c of two decimal 'i' integers (unsuffixed, at least one white-space character in front of the dots) stand "
-    "anywhere at top level among values of the proved class, each range being the first value or standing behind a "
-    "scalar value of any type in a proved spelling, behind nx<scalar>, or behind another such range: the step is b - a when the value a to "
-    "the left is an 'i' integer different from b (behind a range: its right end c'), else sgn(c-b); hypothesis "
+    "anywhere among values of the proved class, at top level AND inside arrays nested to any depth (arrays without open "
+    "end whose elements are values of the class or such ranges; such an array may again be repeated, nx[…], or be an "
+    "element), each range being the first value (of the sentence / of its array) or standing behind a "
+    "scalar value of any type in a proved spelling, behind nx<scalar>, behind another such range, behind an array or "
+    "behind nx[array]: the step is b - a when the value a to "
+    "the left is an 'i' integer different from b (behind a range: its right end c'), else sgn(c-b) (also behind an "
+    "array: its last element is not the left neighbour, fix C11-04); hypothesis "
     "RangeOK: the step is an int32_t that reaches c from b in 1 .. 2^31-2 steps and the width c - b is an int32_t",
     "the width hypothesis of RangeOK is necessary (wide_range_counterexample): '-2100000000 -1500000000 ... 900000000' "
     "denotes five values in the manual's reading (the specification's stepsOf only bounds the number of steps), "
     "delta_from_arg_vals computes c - b in int (signed overflow in C, wrapped in the model) and the checker rejects the "
     "text; such widths are not generated",
-    "model artefact (deep_neighbour_model_fuel): C11.ellipsisTail re-skips the previous argument with the recursion "
-    "bound of the current position (length of the rest of the text + 1); a left neighbour that is an array nested "
-    "deeper than that ('[[[[[[[[1]]]]]]]] 2...5') makes the MODEL of the checker stop with Err.fuel where the C code has "
-    "no bound; the generator nests at most 4 deep and the proved class excludes arrays as left neighbours of a range",
+    "former model artefact, repaired in the model (transcription repair, no change of the C code): C11.ellipsisTail "
+    "re-skips the previous argument (llhssrc) with the recursion bound it is handed; C11.countLoop used to hand "
+    "'length of the text from the current argument on + 2', so a left neighbour that is an array nested deeper than "
+    "the rest of the text is long ('[[[[[[[[1]]]]]]]] 2...5') made the MODEL stop with Err.fuel where the C code has no "
+    "bound; the loop now hands C11.lookBackFuel = length of the text from the PREVIOUS argument on + 2 (every call "
+    "of rtosc_skip_next_printed_arg works inside the argument it skips or on the previous argument, so this bounds "
+    "the call depth); the driver's output is unchanged on every generated case (0 diffs), Lean evaluates the former "
+    "witness (deep_neighbour_reads), and arrays are now proved left neighbours of ranges",
     "NOT proved, covered by exact model/implementation correspondence and the oracle on the implementation only: octal "
     "integers, hexadecimal integers with a suffix or of type 'h', floats and doubles in every notation (point, exponent, suffix, hex, exact value in "
-    "parentheses), upper-case colours, other spacings inside MIDI, ranges directly behind an array or nx[array], ranges "
-    "inside arrays, ranges of c/h/f/d or in other spellings (hex, i suffix), arrays with an open end, "
+    "parentheses), upper-case colours, other spacings inside MIDI, "
+    "ranges of c/h/f/d or in other spellings (hex, i suffix), arrays with an open end ('[a b ...]'), "
     "comments directly behind a value; print_scan_fixpoint for arrays, nxA and compressed runs",
     "known finding C11-K1: an unsuffixed integer literal with a leading zero is read as decimal although the manual "
     "promises C99 (octal) reading and the suffixed forms are read as octal; the model mirrors it, Lean proves the "
@@ -143,20 +159,24 @@ LEVEL_TEXT = ("Lean theorems over an executable model of checker, scanner and pr
               "comment lines: the checker's count equals the number of cells the scanner writes, the whole text is consumed, "
               "the cells are the denotation, and two layouts scan to the same cells (induction over the token list and the "
               "nesting, no size bound); for sentences of scalars print-then-scan is the identity on the scanned cells; "
-              "of the ranges those of decimal i integers at top level are proved: 'b ... c' as the first value, 'a b ... c' with the "
-              "step b - a taken from the scalar a to the left, ranges behind values of other types, behind nx<scalar> and "
-              "behind other ranges (the width c - b must be an int32_t, which the code needs and the manual does not say). "
+              "of the ranges those of decimal i integers are proved, at top level and inside arrays of any nesting depth: "
+              "'b ... c' as the first value (of the sentence, of its array), 'a b ... c' with the "
+              "step b - a taken from the scalar a to the left, ranges behind values of other types, behind nx<scalar>, "
+              "behind other ranges, behind arrays and behind nx[array] "
+              "(the width c - b must be an int32_t, which the code needs and the manual does not say). "
               "'Every layout' means: every layout in which a comment behind a value is preceded by white space. "
-              "The remaining constructs (octal and suffixed hex integers, floats, ranges directly behind an array / inside arrays / "
+              "The remaining constructs (octal and suffixed hex integers, floats, ranges "
               "of other types or spellings, open-ended arrays, comments directly behind a value) are checked by exact "
               "model/implementation correspondence on generated sentences and by an independent reference reader of the "
               "manual evaluated on the implementation's output, not proved. One known finding with proved counterexamples "
               "(C11-K1 octal read as decimal)")
-LEVEL_NOTE = ("partial: scalars in the proved spellings, arrays, nxA and top-level ranges of decimal i integers (first value, or "
-              "behind a scalar / nx<scalar> / another range: 'a b ... c' with the step from a and b) under all layouts without a "
+LEVEL_NOTE = ("partial: scalars in the proved spellings, arrays, nxA and ranges of decimal i integers at top level and inside "
+              "arrays (first value, or behind a scalar / nx<scalar> / another range / an array / nx[array]: 'a b ... c' with the "
+              "step from a and b) under all layouts without a "
               "comment directly behind a value are proved; octal / suffixed-hex / float spellings, ranges of c/h/f/d or in other "
-              "spellings, ranges directly behind an array, ranges inside arrays, open-ended arrays and adjacent comments are "
-              "correspondence + oracle only")
+              "spellings (hex, i suffix: C10's token lemmas exist only for decimal integers in front of '...'), open-ended arrays "
+              "'[a b ...]' (the per-range lemmas for the infinite case and the specification's open-end denotation are not "
+              "linked) and adjacent comments are correspondence + oracle only")
 
 # ------------------------------------------------------------------------------------
 # exact binary floating point on bit patterns (independent of the Lean model)
